@@ -1514,3 +1514,128 @@ Proof.
     + apply Hb. apply Hb'. reflexivity.
 Qed.
 
+(* ================================================================== *)
+(* I. the literal statements, and what refutes them                    *)
+(* ================================================================== *)
+
+(* answer of the API: allowed / denied / error class *)
+Definition api (a : aout) : N :=
+  match a with AT => 0 | AFn | AFc => 1 | AEc => 3 | AEd => 4 | AEo => 5 | AFuel => 6 end.
+
+(* "every answer with the cache is an answer without it", read literally on the models *)
+Definition literal_transparent (envs : N -> penv) (fuel : nat) (qs : list request) : Prop :=
+  Forall2 (fun s s' : oset => forall a, In a s -> exists a', In a' s' /\ api a = api a')
+          (fst (run_history envs true fuel qs [])) (fst (run_history envs false fuel qs [])).
+
+(* D1: a depth-limit error is masked.  types user=1 group=2; relation member=1;
+     group.member: [user, group#member]
+     group:1#member@group:2#member, group:2#member@group:3#member, group:3#member@user:1
+   resolution depth limit 2.  Check(group:2#member@user:1) is allowed (and stored);
+   Check(group:1#member@user:1) exceeds the limit without the cache and is allowed with it. *)
+Definition d1_model : model :=
+  [ {| td_type := 1; td_rels := [] |};
+    {| td_type := 2; td_rels := [mk_rel 1 This [mk_restr 1 RObj 0; mk_restr 2 (RSet 1) 0]] |} ].
+Definition d1_store : list tuple :=
+  [ mk_tuple (mk_obj 2 1) 1 (SSet (mk_obj 2 2) 1) 0 T;
+    mk_tuple (mk_obj 2 2) 1 (SSet (mk_obj 2 3) 1) 0 T;
+    mk_tuple (mk_obj 2 3) 1 (SObj (mk_obj 1 1)) 0 T ].
+Definition d1_env (md : nat) : penv :=
+  {| pe_model := d1_model; pe_conds := []; pe_store := d1_store; pe_subj := SObj (mk_obj 1 1);
+     pe_pathx := [(2, 1)]; pe_maxdepth := md |}.
+Definition d1_requests : list request :=
+  [ {| q_part := 0; q_obj := mk_obj 2 2; q_rel := 1 |}; {| q_part := 0; q_obj := mk_obj 2 1; q_rel := 1 |} ].
+
+Lemma d1_runs :
+  fst (run_history (fun _ => d1_env 2) true 8 d1_requests []) = [[AT]; [AEd; AT]] /\
+  fst (run_history (fun _ => d1_env 2) false 8 d1_requests []) = [[AT]; [AEd]] /\
+  fst (run_history (fun _ => d1_env 25) true 8 d1_requests []) = [[AT]; [AT]] /\
+  fst (run_history (fun _ => d1_env 25) false 8 d1_requests []) = [[AT]; [AT]].
+Proof. repeat split; vm_compute; reflexivity. Qed.
+
+Theorem literal_v1_refuted_depth : exists envs fuel qs, ~ literal_transparent envs fuel qs.
+Proof.
+  exists (fun _ => d1_env 2), 8%nat, d1_requests. unfold literal_transparent.
+  destruct d1_runs as [H1 [H2 _]]. rewrite H1, H2. intro H.
+  inversion H as [|x y l l' _ Hrest]; subst. inversion Hrest as [|x' y' l2 l2' Hxy _]; subst.
+  destruct (Hxy AT (or_intror (or_introl eq_refl))) as [a' [[Ha|[]] He]]. subst a'. discriminate He.
+Qed.
+
+(* the cache content of D1 after the history: the three sub-problems, with their values *)
+Lemma d1_cache :
+  snd (run_history (fun _ => d1_env 2) true 8 d1_requests []) =
+  [(0, [((mk_obj 2 1, 1), true); ((mk_obj 2 2, 1), true); ((mk_obj 2 2, 1), true); ((mk_obj 2 3, 1), true)])].
+Proof. vm_compute. reflexivity. Qed.
+
+(* read literally ("the outcome does not depend on the VisitedPaths argument"), path
+   independence is false: on a path that contains the sub-problem itself the engine reports
+   a cycle *)
+Theorem path_independence_literal_refuted :
+  exists m conds store subj pathx md f d V V' o r,
+    In AT (fst (check m conds store subj pathx md f d V o r)) /\
+    ~ In AT (fst (check m conds store subj pathx md f d V' o r)).
+Proof.
+  exists d1_model, [], d1_store, (SObj (mk_obj 1 1)), [(2, 1)], 25%nat, 8%nat, O, [], [(mk_obj 2 3, 1)], (mk_obj 2 3), 1.
+  split; vm_compute; [left; reflexivity | intros [H|[]]; discriminate H].
+Qed.
+
+(* the weighted-graph engine's edge cache, on the abstract model *)
+Definition v2_literal_transparent (fixed : bool) : Prop :=
+  forall succ hit cyc fuel reqs bs_on bs_off,
+    v2_run succ hit cyc true fixed fuel reqs [] = Some bs_on ->
+    v2_run succ hit cyc false fixed fuel reqs [] = Some bs_off -> bs_on = bs_off.
+
+Theorem v2_literal_refuted : ~ v2_literal_transparent false.
+Proof.
+  intro H. destruct v2_edge_cache_refuted_witness as [H1 H2].
+  specialize (H f3_succ f3_hit f3_cyc 10%nat f3_requests _ _ H1 H2). discriminate H.
+Qed.
+
+Theorem v2_literal_fixed : v2_literal_transparent true.
+Proof.
+  intros succ hit cyc fuel reqs bs_on bs_off Hon Hoff.
+  exact (v2_fixed_transparent succ hit cyc fuel reqs [] bs_on bs_off true (ecache_ok_nil succ hit) Hon Hoff).
+Qed.
+
+(* non-vacuity of the fixed variant on the F3 graph: the runs complete and agree *)
+Lemma v2_fixed_f3 :
+  v2_run f3_succ f3_hit f3_cyc true true 10 f3_requests [] = Some [true; true] /\
+  v2_run f3_succ f3_hit f3_cyc false true 10 f3_requests [] = Some [true; true].
+Proof. split; vm_compute; reflexivity. Qed.
+
+(* ---- the statements of Props/C08.v in the form they are quoted there ---- *)
+Lemma history_valid : forall envs fuel qs g,
+  gvalid envs g -> gvalid envs (snd (run_history envs true fuel qs g)).
+Proof. intros envs fuel qs g Hg. exact (proj2 (history_transparent envs fuel qs g Hg)). Qed.
+
+Lemma history_answers : forall envs fuel qs g,
+  gvalid envs g -> Forall2 (answers_ok envs fuel) qs (fst (run_history envs true fuel qs g)).
+Proof. intros envs fuel qs g Hg. exact (proj1 (history_transparent envs fuel qs g Hg)). Qed.
+
+Lemma run1_answers : forall envs fuel q g,
+  gvalid envs g -> answers_ok envs fuel q (fst (run1 envs true fuel q g)).
+Proof. intros envs fuel q g Hg. exact (proj1 (run1_ok envs fuel q g Hg)). Qed.
+
+Lemma check_dv_bounded : forall m conds store subj pathx maxdepth f d V o r,
+  dv (fst (check m conds store subj pathx maxdepth f d V o r)) = checkB m conds store subj pathx maxdepth f d V o r /\
+  le4 (checkB m conds store subj pathx maxdepth f d V o r) (unfoldB m conds store subj pathx f o r).
+Proof. intros; split; [apply check_dv | apply checkB_le_unfoldB]. Qed.
+
+Lemma d1_valid_example :
+  gvalid (fun _ => d1_env 2) [] /\
+  snd (run_history (fun _ => d1_env 2) true 8 d1_requests []) =
+  [(0, [((mk_obj 2 1, 1), true); ((mk_obj 2 2, 1), true); ((mk_obj 2 2, 1), true); ((mk_obj 2 3, 1), true)])].
+Proof. split; [apply gvalid_nil | exact d1_cache]. Qed.
+
+Lemma d1_transparent_example :
+  fst (run_history (fun _ => d1_env 25) true 8 d1_requests []) = [[AT]; [AT]] /\
+  fst (run_history (fun _ => d1_env 25) false 8 d1_requests []) = [[AT]; [AT]].
+Proof. destruct d1_runs as [_ [_ [H3 H4]]]. split; assumption. Qed.
+
+Lemma v2_example :
+  v2_run f3_succ f3_hit f3_cyc true false 10 f3_requests [] = Some [true; false] /\
+  v2_run f3_succ f3_hit f3_cyc false false 10 f3_requests [] = Some [true; true] /\
+  v2_run f3_succ f3_hit f3_cyc true true 10 f3_requests [] = Some [true; true].
+Proof.
+  destruct v2_edge_cache_refuted_witness as [H1 H2]. destruct v2_fixed_f3 as [H3 _].
+  split; [exact H1 | split; [exact H2 | exact H3]].
+Qed.
